@@ -848,7 +848,9 @@ class file_archive(archive):
         "D.copy(name) -> a copy of D, with a new archive at the given name"
         filename = self.__state__['id']
         if name is None: name = filename
-        else: shutil.copy2(filename, name) #XXX: overwrite?
+        else: #XXX: overwrite?
+            if not self.__state__['serialized'] and not name.endswith(('.py','.pyc','.pyo','.pyd')): name = name+'.py' # (as in __init__)
+            shutil.copy2(filename, name)
         adict = file_archive(filename=name, **self.state)
        #adict.update(self.__asdict__())
         return adict
